@@ -74,6 +74,10 @@ def criterion(name, o, L, desc, spec, tmin):
     raise KeyError(name)
 
 
+def comp_fns_lookup(comp_fns):
+    return [("+".join(c), fn) for c, fn in comp_fns]
+
+
 def sublists(xs):
     out = []
     for r in range(1, len(xs) + 1):
@@ -149,6 +153,11 @@ def harness(eng, sp):
     singles = {b: ready_operations_filter_factory(b) for b in BUILTIN}
     comps = [c for c in compositions(sp["maxlen"]) if len(c) > 1]
     comp_fns = [(c, create_composite_operation_filter(c)) for c in comps]
+    # the argument is declared Iterable: a generator of names (and a mix of enum members and callables) must build the same filter
+    from job_shop_lib.dispatching import ReadyOperationsFilterType
+
+    gen_fns = [(c, create_composite_operation_filter(n for n in c),
+                create_composite_operation_filter([ReadyOperationsFilterType(c[0])] + [singles[b] for b in c[1:]])) for c in comps]
     for k in range(desc.n_ops):
         ready = spec.ready_ops()
         eng.reachable("state")
@@ -195,6 +204,14 @@ def harness(eng, sp):
                     eng.fail(key + "/empty-result-for-non-empty-input", f"L={L} after {spec.history}")
                 elif len(set(res)) != len(res) or not is_subsequence(res, L):
                     eng.fail(key + "/not-an-order-preserving-sublist", f"{res} of {L}")
+            if L == ready:
+                for c, g1, g2 in gen_fns:
+                    key = "C07/composition/" + "+".join(c)
+                    want = call(eng, dict(comp_fns_lookup(comp_fns))["+".join(c)], disp, Lops, key)
+                    for how, fn in (("generator-of-names", g1), ("enum-and-callables", g2)):
+                        got = call(eng, fn, disp, Lops, key + "/" + how)
+                        if got is not None and want is not None and got != want:
+                            eng.fail(key + f"/built-from-{how}-differs", f"L={L}: {got} vs {want}")
         op, m = D.choose_dispatch(eng, desc, spec)
         disp.dispatch(D.op_by_id(inst, op), m)
         rep.dispatch(D.op_by_id(inst, op), m)
